@@ -35,10 +35,20 @@ SCRIPTS = [
     ("cl0", "POST /u HTTP/1.1\r\nContent-Length: 0\r\n\r\nGET /x HTTP/1.1\r\n\r\n"),
     ("expect-cl0", "PUT /u HTTP/1.1\r\nExpect: 100-continue\r\nContent-Length: 0\r\n\r\nGET /x HTTP/1.1\r\n\r\n"),
 ]
+SCRIPTS_LONG = [
+    # a body served from the connection buffer, then a pipelined head that fits the 8 KiB buffer only if the buffer
+    # is compacted before it is read (6000 + 3000 > 8192)
+    ("body-then-long-head", "POST /u HTTP/1.1\r\nContent-Length: 6000\r\n\r\n" + "b" * 6000 + "GET /x HTTP/1.1\r\nx-pad: " + "p" * 3000 + "\r\n\r\n"),
+    ("long-head-twice", "GET /a HTTP/1.1\r\nx-pad: " + "p" * 5000 + "\r\n\r\nGET /b HTTP/1.1\r\nx-pad: " + "q" * 5000 + "\r\n\r\n"),
+]
+LONG_SEQS = ["RR BV WR 200 t RR", "RR BV WR 200 n RR WR 200 t", "RR BF 1 1000000 WR 200 t RR", "RR WR 200 t RR",
+             "RR BV WR 100 n WR 200 t RR WR 200 t", "RR WR 200 t RR WR 200 t", "RR BV WR 500 cl WR 200 t RR"]
 OPS = ["RR", "BV", "BF 1 0", "BF 1 4", "BF 1 5", "BF 1 1000000", "BF 0 100", "CO",
        "WR 100 n", "WR 200 n", "WR 200 t", "WR 404 t", "WR 500 n", "WR 200 d", "WR 200 cl", "WR 200 ct", "WR 200 te",
-       "WR 200 fm", "WR 200 fs", "SH"]
-OPS_CORE = ["RR", "BV", "BF 1 4", "BF 1 5", "BF 0 100", "CO", "WR 100 n", "WR 200 t", "WR 500 n", "WR 200 d", "WR 200 cl", "WR 200 fm", "SH"]
+       "WR 200 fm", "WR 200 fs", "SH",
+       # a response that is refused before its first byte although its status would close the connection
+       "WR 500 cl", "WR 503 ct", "WR 500 te", "WR 404 cl"]
+OPS_CORE = ["RR", "BV", "BF 1 4", "BF 1 5", "BF 0 100", "CO", "WR 100 n", "WR 200 t", "WR 500 n", "WR 200 d", "WR 200 cl", "WR 200 fm", "SH", "WR 500 cl"]
 
 def gen(rng, tier):
     cases = ["tables"]
@@ -50,6 +60,9 @@ def gen(rng, tier):
     for name, sc in SCRIPTS:
         for seq in itertools.product(OPS_CORE, repeat=2):
             cases.append("%s RR %s" % (h(sc), " ".join(seq)))
+    for name, sc in SCRIPTS_LONG:
+        for seq in LONG_SEQS:
+            cases.append("%s %s" % (h(sc), seq))
     nrand = 6000 if tier == "quick" else 300000
     for _ in range(nrand):
         name, sc = rng.choice(SCRIPTS)
